@@ -29,104 +29,198 @@ class Unknown(Exception):
     pass
 
 
-def ev(e, cell, S, P, env):
-    """Symbolic value of e in a cell: one of 0, 'r', 'P-r', 'P', 'S', '-S', ('bool', b)."""
+class Poly:
+    """Integer-linear form over the monomials 1, P, r, q, q*P  (S = q*P + r, 0 <= r < P, P > 0)."""
+    MON = ("1", "P", "r", "q", "qP")
+
+    def __init__(self, **kw):
+        self.c = {m: kw.get(m, 0) for m in self.MON}
+
+    def __add__(self, o):
+        return Poly(**{m: self.c[m] + o.c[m] for m in self.MON})
+
+    def __neg__(self):
+        return Poly(**{m: -self.c[m] for m in self.MON})
+
+    def __sub__(self, o):
+        return self + (-o)
+
+    def scale(self, k):
+        return Poly(**{m: self.c[m] * k for m in self.MON})
+
+    def times_P(self):
+        if self.c["P"] or self.c["r"] or self.c["qP"]:
+            raise Unknown("non-linear product")
+        return Poly(P=self.c["1"], qP=self.c["q"])
+
+    def is_const(self):
+        return not any(self.c[m] for m in self.MON if m != "1")
+
+    def key(self):
+        return tuple(self.c[m] for m in self.MON)
+
+    def __eq__(self, o):
+        return isinstance(o, Poly) and self.key() == o.key()
+
+    def __hash__(self):
+        return hash(self.key())
+
+    def __repr__(self):
+        names = {"1": "", "P": "P", "r": "r", "q": "q", "qP": "q*P"}
+        parts = []
+        for m in self.MON:
+            k = self.c[m]
+            if not k:
+                continue
+            t = names[m]
+            parts.append(("%d" % k) if not t else (t if k == 1 else ("-" + t if k == -1 else "%d*%s" % (k, t))))
+        return " + ".join(parts).replace("+ -", "- ") or "0"
+
+
+def restrict(p, cell):
+    """Substitute what the cell knows: q = 0 and / or r = 0."""
     q, r = cell
-    if isinstance(e, ast.Constant) and e.value == 0:
-        return 0
+    c = dict(p.c)
+    if q == "q=0":
+        c["q"] = 0
+        c["qP"] = 0
+    if r == "r=0":
+        c["r"] = 0
+    return Poly(**c)
+
+
+def S_of(cell):
+    return restrict(Poly(qP=1, r=1), cell)
+
+
+def ev(e, cell, S, P, env):
+    """Symbolic value (Poly) of an integer expression in a cell."""
+    if isinstance(e, ast.Constant) and isinstance(e.value, int) and not isinstance(e.value, bool):
+        return Poly(**{"1": e.value})
     if isinstance(e, (ast.Name, ast.Attribute)):
         t = norm(e)
         if t == S:
-            return 0 if (q == "q=0" and r == "r=0") else ("r" if q == "q=0" else "S")
+            return S_of(cell)
         if t == P:
-            return "P"
+            return Poly(P=1)
         if t in env:
             return env[t]
         raise Unknown(t)
     if isinstance(e, ast.UnaryOp) and isinstance(e.op, ast.USub):
-        v = ev(e.operand, cell, S, P, env)
-        if v == 0:
-            return 0
-        if v in ("S", "r"):
-            return "-" + v
-        raise Unknown(norm(e))
-    if isinstance(e, ast.BinOp) and isinstance(e.op, ast.Mod):
-        l = ev(e.left, cell, S, P, env)
-        m = ev(e.right, cell, S, P, env)
-        if m != "P":
+        return -ev(e.operand, cell, S, P, env)
+    if isinstance(e, ast.BinOp):
+        if isinstance(e.op, (ast.Add, ast.Sub)):
+            l, r = ev(e.left, cell, S, P, env), ev(e.right, cell, S, P, env)
+            return restrict(l + r if isinstance(e.op, ast.Add) else l - r, cell)
+        if isinstance(e.op, ast.Mult):
+            l, r = ev(e.left, cell, S, P, env), ev(e.right, cell, S, P, env)
+            if l.is_const():
+                return r.scale(l.c["1"])
+            if r.is_const():
+                return l.scale(r.c["1"])
+            if l == Poly(P=1):
+                return restrict(r.times_P(), cell)
+            if r == Poly(P=1):
+                return restrict(l.times_P(), cell)
             raise Unknown(norm(e))
-        if l == 0 or l == "P":
-            return 0
-        if l in ("S", "r"):
-            return 0 if r == "r=0" else "r"
-        if l in ("-S", "-r"):
-            return 0 if r == "r=0" else "P-r"
-        if l == "P-r":
-            return "P-r" if r == "r>0" else 0
-        raise Unknown(norm(e))
-    if isinstance(e, ast.BinOp) and isinstance(e.op, ast.Sub):
-        l = ev(e.left, cell, S, P, env)
-        rr = ev(e.right, cell, S, P, env)
-        if l == "P":
-            if rr == 0:
-                return "P"
-            if rr == "r":
-                return "P-r" if r == "r>0" else "P"
-            if rr == "P":
-                return 0
-            if rr == "P-r":
-                return "r" if r == "r>0" else 0
-        if rr == 0:
-            return l
+        if isinstance(e.op, (ast.Mod, ast.FloorDiv)):
+            l, m = ev(e.left, cell, S, P, env), ev(e.right, cell, S, P, env)
+            if m != Poly(P=1):
+                raise Unknown(norm(e))
+            quo, rem = divmod_P(l, cell)
+            return rem if isinstance(e.op, ast.Mod) else quo
         raise Unknown(norm(e))
     if isinstance(e, ast.IfExp):
-        t = truth(e.test, cell, S, P, env)
-        return ev(e.body if t else e.orelse, cell, S, P, env)
+        return ev(e.body if truth(e.test, cell, S, P, env) else e.orelse, cell, S, P, env)
+    if isinstance(e, ast.Call) and isinstance(e.func, ast.Name) and e.func.id == "divmod" and len(e.args) == 2:
+        raise Unknown("divmod")
     raise Unknown(norm(e))
 
 
-def truth(t, cell, S, P, env):
+def divmod_P(v, cell):
+    """(v // P, v % P) for v = a*P + d*q*P + e*q + b*r + c with 0 <= r < P (r > 0 or r = 0 per cell)."""
+    if v.c["q"]:
+        raise Unknown("bare q under division")
+    a, d, b, c = v.c["P"], v.c["qP"], v.c["r"], v.c["1"]
+    if c:
+        raise Unknown("constant offset under division by P")
+    whole = Poly(**{"1": a, "q": d})
+    if b == 0:
+        return whole, Poly()
+    if b == 1:
+        return whole, Poly(r=1)                      # 0 < r < P
+    if b == -1:
+        return whole - Poly(**{"1": 1}), Poly(P=1, r=-1)   # -r = -P + (P - r)
+    raise Unknown("multiple of r under division by P")
+
+
+def sign(v, cell):
+    """'zero' | 'pos' | 'neg' for a Poly in a cell (using 0 < r < P when r > 0, q >= 1 when not 0)."""
+    v = restrict(v, cell)
+    if not any(v.c.values()):
+        return "zero"
     q, r = cell
+    a, d, e_, b, c = v.c["P"], v.c["qP"], v.c["q"], v.c["r"], v.c["1"]
+    if e_ or c:
+        # constants mixed with symbolic sizes: only decidable when everything else vanishes
+        if not (a or d or b or e_):
+            return "pos" if c > 0 else "neg"
+        raise Unknown("sign of %r" % v)
+    # v = (a + d*q) * P + b*r  with q >= 1 if present, 0 < r < P
+    lo_q = 1
+    if d >= 0:
+        low = (a + d * lo_q)     # coefficient of P at least this
+    else:
+        low = None
+    if b == 0:
+        if d == 0:
+            return "pos" if a > 0 else "neg"
+        if d > 0 and a + d >= 1:
+            return "pos"
+        if d < 0 and a + d <= -1:
+            return "neg"
+        raise Unknown("sign of %r" % v)
+    if d == 0:
+        # a*P + b*r with 0 < r < P
+        if a >= 1 and b >= -a:
+            return "pos" if not (b == -a and False) else "pos"
+        if a == 0:
+            return "pos" if b > 0 else "neg"
+        if a <= -1 and b <= -a:
+            return "neg"
+    if d > 0 and a + d >= 1 and b >= -(a + d):
+        return "pos"
+    raise Unknown("sign of %r" % v)
+
+
+def truth(t, cell, S, P, env):
     if isinstance(t, ast.Compare) and len(t.ops) == 1:
         l = ev(t.left, cell, S, P, env)
-        rr = ev(t.comparators[0], cell, S, P, env)
+        r = ev(t.comparators[0], cell, S, P, env)
         op = t.ops[0]
-        slike = (0, "r", "S")
-        if (rr == "P" and l in slike) or (l == "P" and rr in slike):
-            # normalise to  S <op> P
-            name = type(op).__name__
-            if l == "P":
-                name = {"Lt": "Gt", "Gt": "Lt", "LtE": "GtE", "GtE": "LtE"}.get(name, name)
-            small = q == "q=0"                      # S < P
-            if name == "Lt":
-                return small
-            if name == "GtE":
-                return not small
-            if name == "Gt":
-                if small:
-                    return False
-                if r == "r>0":
-                    return True
-                raise Unknown("S > P is undetermined when S is a whole number of pieces")
-            if name == "LtE":
-                if small:
-                    return True
-                if r == "r>0":
-                    return False
-                raise Unknown("S <= P is undetermined when S is a whole number of pieces")
-            raise Unknown(norm(t))
-        if rr == 0 or l == 0:
-            other = l if rr == 0 else rr
-            nz = other not in (0,)
-            if isinstance(op, (ast.Eq,)):
-                return not nz
-            if isinstance(op, (ast.NotEq, ast.Gt)):
-                return nz
-        raise Unknown(norm(t))
+        d = restrict(l - r, cell)
+        # S compared with P when S is a whole number of pieces (q >= 1, r = 0): S - P = (q-1)*P, sign unknown beyond >= 0
+        if cell == ("q>=1", "r=0") and d == Poly(qP=1, P=-1):
+            if isinstance(op, ast.GtE):
+                return True
+            if isinstance(op, ast.Lt):
+                return False
+            raise Unknown("S ? P is undetermined when S is a whole number of pieces")
+        if cell == ("q>=1", "r=0") and d == Poly(qP=-1, P=1):
+            if isinstance(op, ast.LtE):
+                return True
+            if isinstance(op, ast.Gt):
+                return False
+            raise Unknown("P ? S is undetermined when S is a whole number of pieces")
+        sg = sign(d, cell)
+        return {ast.Lt: sg == "neg", ast.LtE: sg in ("neg", "zero"), ast.Gt: sg == "pos", ast.GtE: sg in ("pos", "zero"),
+                ast.Eq: sg == "zero", ast.NotEq: sg != "zero"}[type(op)]
     if isinstance(t, ast.UnaryOp) and isinstance(t.op, ast.Not):
         return not truth(t.operand, cell, S, P, env)
-    v = ev(t, cell, S, P, env)
-    return v != 0
+    if isinstance(t, ast.BoolOp):
+        vals = [truth(v, cell, S, P, env) for v in t.values]
+        return all(vals) if isinstance(t.op, ast.And) else any(vals)
+    return sign(ev(t, cell, S, P, env), cell) != "zero"
 
 
 def run(ctx):
@@ -176,9 +270,9 @@ def run(ctx):
         except Unknown as exc:
             ctx.undecided("C15.2", fn, "%s: gap expression outside the abstract domain (%s)" % (label, exc), "gap :: " + label)
             continue
-        want = 0 if cell[1] == "r=0" else "P-r"
-        desc = {0: "0 (no padding entry)", "P-r": "P - r", "r": "r", "P": "a full piece P", "S": "S"}.get(val, str(val))
-        wdesc = "0 (no padding entry)" if want == 0 else "P - r"
+        want = Poly() if cell[1] == "r=0" else Poly(P=1, r=-1)
+        desc = "0 (no padding entry)" if val == Poly() else ("a full piece P" if val == Poly(P=1) else repr(val))
+        wdesc = "0 (no padding entry)" if want == Poly() else "P - r"
         ex = {("q=0", "r=0"): "an empty file", ("q=0", "r>0"): "a file shorter than a piece", ("q>=1", "r=0"): "a file of whole pieces", ("q>=1", "r>0"): "e.g. 16389 bytes with 16384-byte pieces"}[cell]
         ctx.decide("C15.2", fn, val == want, "%s (S = q*P + r): gap = %s" % (label, desc),
                    "%s (%s): the padding length is %s, must be %s - the listed lengths no longer add up to the pieces that are hashed" % (label, ex, desc, wdesc), "gap :: " + label)
@@ -271,10 +365,7 @@ def eval_gap(body, gap, cell, S, P):
     run(body)
     if gap not in env:
         raise Unknown("no definition of %s" % gap)
-    v = env[gap]
-    if cell[1] == "r=0":
-        v = {"r": 0, "P-r": "P"}.get(v, v)
-    return v
+    return restrict(env[gap], cell)
 
 
 MUTANTS = MUT_C15
